@@ -658,4 +658,245 @@ theorem overlapped_entities (s : St) (p : Nat) (evs : List Ev) (he : ∀ e ∈ e
   rw [← h2]
   exact h1
 
+/-! ### any schedule: the feature part of the reply lies between the tree at the start and the tree at the end -/
+
+/-- g is f later: same number, type and role; the functions of f are the first functions of g (functions are only
+    added, and a function keeps the operations of its first addition) -/
+def FLe (f g : Feat) : Prop := f.id = g.id ∧ f.typ = g.typ ∧ f.role = g.role ∧ f.fns <+: g.fns
+
+theorem FLe.refl (f : Feat) : FLe f f := ⟨rfl, rfl, rfl, List.prefix_refl _⟩
+theorem FLe.trans {f g h : Feat} (a : FLe f g) (b : FLe g h) : FLe f h :=
+  ⟨a.1.trans b.1, a.2.1.trans b.2.1, a.2.2.1.trans b.2.2.1, a.2.2.2.trans b.2.2.2⟩
+
+/-- every feature of s is still there in s', grown -/
+def SLe (s s' : St) : Prop :=
+  ∀ k id f, (s.pool k).feats.find? (·.id = id) = some f → ∃ g, (s'.pool k).feats.find? (·.id = id) = some g ∧ FLe f g
+
+theorem SLe.refl (s : St) : SLe s s := fun _ _ f h => ⟨f, h, FLe.refl f⟩
+theorem SLe.trans {a b c : St} (x : SLe a b) (y : SLe b c) : SLe a c := by
+  intro k id f h
+  obtain ⟨g, hg, fg⟩ := x k id f h
+  obtain ⟨g', hg', fg'⟩ := y k id g hg
+  exact ⟨g', hg', fg.trans fg'⟩
+
+theorem featAddFn_FLe (f : Feat) (fn : Nat) (r w cap : Bool) : FLe f (featAddFn f fn r w cap) := by
+  refine ⟨(featAddFn_id f fn r w cap).symm, (featAddFn_typ f fn r w cap).symm, (featAddFn_role f fn r w cap).symm, ?_⟩
+  unfold featAddFn
+  split
+  · exact List.prefix_refl _
+  · split
+    · exact List.prefix_refl _
+    · exact List.prefix_append _ _
+
+theorem sle_updFeat (s : St) (k fid : Nat) (g : Feat → Feat) (hg : ∀ f, FLe f (g f)) (s' : St)
+    (hs : s'.pool = upd s.pool k { s.pool k with feats := updFeat (s.pool k).feats fid g }) : SLe s s' := by
+  intro j id f hf
+  rw [hs, find_pool_upd s k fid g (fun f => (hg f).1.symm)]
+  by_cases hji : j = k ∧ id = fid
+  · obtain ⟨rfl, rfl⟩ := hji
+    simp only [and_self, if_true, hf, Option.map_some]
+    exact ⟨g f, rfl, hg f⟩
+  · simp only [hji, if_false]
+    exact ⟨f, hf, FLe.refl f⟩
+
+/-- every application call (a fresh object for a slot excepted) only lets the features grow -/
+theorem sle_step (s : St) (o : Op) (hr : ∀ k et, o ≠ .renew k et) : SLe s (step s o).1 := by
+  by_cases c1 : ∃ k t r, o = .feat k t r
+  · obtain ⟨k, t, r, rfl⟩ := c1
+    intro j id f hf
+    simp only [step, entGetOrAdd]
+    by_cases hj : j = k
+    · subst hj
+      simp only [upd_same]
+      split
+      · exact ⟨f, hf, FLe.refl f⟩
+      · exact ⟨f, by simp [List.find?_append, hf], FLe.refl f⟩
+    · simp only [upd_other _ _ _ _ hj]
+      exact ⟨f, hf, FLe.refl f⟩
+  by_cases c2 : ∃ k fid fn r w c, o = .addFn k fid fn r w c
+  · obtain ⟨k, fid, fn, r, w, c, rfl⟩ := c2
+    exact sle_updFeat s k fid _ (fun f => featAddFn_FLe f fn r w c) _ rfl
+  by_cases c3 : ∃ k fid d, o = .setDescr k fid d
+  · obtain ⟨k, fid, d, rfl⟩ := c3
+    exact sle_updFeat s k fid (fun f => { f with descr := d }) (fun f => ⟨rfl, rfl, rfl, List.prefix_refl _⟩) _ rfl
+  have hv := sameView_step s o (fun k t r e => c1 ⟨k, t, r, e⟩) (fun k fid fn r w c e => c2 ⟨k, fid, fn, r, w, c, e⟩)
+    (fun k fid d e => c3 ⟨k, fid, d, e⟩) hr
+  intro j id f hf
+  exact ⟨f, by rw [(hv j).1]; exact hf, FLe.refl f⟩
+
+/-- the entry e of slot k is not ahead of the state: the feature exists, with that type and role, and has every
+    function of the entry (as its first functions) -/
+def Up (s : St) (k : Nat) (e : Feat) : Prop :=
+  ∃ g, (s.pool k).feats.find? (·.id = e.id) = some g ∧ e.typ = g.typ ∧ e.role = g.role ∧ e.fns <+: g.fns
+
+structure UpInv (s : St) (rd : Rd) : Prop where
+  out : ∀ k e, (k, e) ∈ rd.outF → Up s k e
+  pend : ∀ id fns, rd.pend = some (id, fns) → ∃ g, (s.pool rd.cur).feats.find? (·.id = id) = some g ∧ fns <+: g.fns
+  todo : ∀ id ∈ rd.todo, ∃ g, (s.pool rd.cur).feats.find? (·.id = id) = some g
+
+theorem find_id_of_mem (fs : List Feat) (f : Feat) (hf : f ∈ fs) : ∃ g, fs.find? (·.id = f.id) = some g := by
+  cases h : fs.find? (·.id = f.id) with
+  | some g => exact ⟨g, rfl⟩
+  | none => have := List.find?_eq_none.mp h f hf; simp at this
+
+theorem find_id (fs : List Feat) (id : Nat) (g : Feat) (h : fs.find? (·.id = id) = some g) : g.id = id ∧ g ∈ fs := by
+  have := List.find?_some h
+  exact ⟨by simpa using this, List.mem_of_find?_eq_some h⟩
+
+theorem upInv_tick (s : St) (rd : Rd) (u : UpInv s rd) : UpInv s (tick s rd) := by
+  unfold tick
+  cases hp : rd.pend with
+  | some pf =>
+    obtain ⟨id, fns⟩ := pf
+    obtain ⟨g, hg, hpre⟩ := u.pend id fns hp
+    refine ⟨?_, ?_, u.todo⟩
+    · intro k e hm
+      simp only [tickDescr, List.mem_append, List.mem_singleton, Prod.mk.injEq] at hm
+      rcases hm with hm | ⟨rfl, rfl⟩
+      · exact u.out k e hm
+      · simp only [Up, entryOf, hg]
+        exact ⟨g, rfl, rfl, rfl, hpre⟩
+    · intro i f hh; simp [tickDescr] at hh
+  | none =>
+    cases ht : rd.todo with
+    | cons id t =>
+      refine ⟨u.out, ?_, ?_⟩
+      · intro i f hh
+        simp only [tickOps, Option.some.injEq, Prod.mk.injEq] at hh
+        obtain ⟨rfl, rfl⟩ := hh
+        obtain ⟨g, hg⟩ := u.todo id (by rw [ht]; exact List.mem_cons_self)
+        exact ⟨g, hg, by simp [fnsOf, hg]⟩
+      · intro i hi; exact u.todo i (by rw [ht]; exact List.mem_cons_of_mem _ hi)
+    | nil =>
+      cases he : rd.ents with
+      | cons k es =>
+        refine ⟨?_, ?_, ?_⟩
+        · intro j e hm; exact u.out j e hm
+        · intro i f hh; simp [tickEnt, hp] at hh
+        · intro i hi
+          simp only [tickEnt, List.mem_map] at hi
+          obtain ⟨f, hf, rfl⟩ := hi
+          exact find_id_of_mem _ f hf
+      | nil => exact u
+
+theorem upInv_mono (s s' : St) (hs : SLe s s') (rd : Rd) (u : UpInv s rd) : UpInv s' rd := by
+  refine ⟨?_, ?_, ?_⟩
+  · intro k e hm
+    obtain ⟨g, hg, a, b, c⟩ := u.out k e hm
+    obtain ⟨g', hg', fg⟩ := hs k e.id g hg
+    exact ⟨g', hg', a.trans fg.2.1, b.trans fg.2.2.1, c.trans fg.2.2.2⟩
+  · intro id fns hp
+    obtain ⟨g, hg, c⟩ := u.pend id fns hp
+    obtain ⟨g', hg', fg⟩ := hs _ id g hg
+    exact ⟨g', hg', c.trans fg.2.2.2⟩
+  · intro id hi
+    obtain ⟨g, hg⟩ := u.todo id hi
+    obtain ⟨g', hg', _⟩ := hs _ id g hg
+    exact ⟨g', hg'⟩
+
+/-- every feature of the start (of an entity of the start's list) is accounted for: rendered already, not smaller
+    than it was; or being rendered; or still ahead -/
+structure LowInv (s0 : St) (s : St) (rd : Rd) : Prop where
+  sle : SLe s0 s
+  acc : ∀ k ∈ s0.attached, ∀ id f0, (s0.pool k).feats.find? (·.id = id) = some f0 →
+    (∃ e, (k, e) ∈ rd.outF ∧ e.id = id ∧ e.typ = f0.typ ∧ e.role = f0.role ∧ f0.fns <+: e.fns) ∨
+    (rd.cur = k ∧ ∃ fns, rd.pend = some (id, fns) ∧ f0.fns <+: fns) ∨
+    (rd.cur = k ∧ id ∈ rd.todo) ∨ k ∈ rd.ents
+
+theorem lowInv_tick (s0 s : St) (rd : Rd) (l : LowInv s0 s rd) : LowInv s0 s (tick s rd) := by
+  refine ⟨l.sle, ?_⟩
+  intro k hk id f0 h0
+  have hacc := l.acc k hk id f0 h0
+  obtain ⟨g, hg, fg⟩ := l.sle k id f0 h0
+  unfold tick
+  cases hp : rd.pend with
+  | some pf =>
+    obtain ⟨i, fns⟩ := pf
+    simp only [tickDescr]
+    rcases hacc with ⟨e, hm, he⟩ | ⟨hc, fns', hp', hpre⟩ | hc | hc
+    · exact Or.inl ⟨e, List.mem_append_left _ hm, he⟩
+    · rw [hp] at hp'
+      simp only [Option.some.injEq, Prod.mk.injEq] at hp'
+      obtain ⟨rfl, rfl⟩ := hp'
+      refine Or.inl ⟨entryOf s rd.cur i fns, ?_, ?_⟩
+      · rw [hc]; exact List.mem_append_right _ (List.mem_singleton.mpr rfl)
+      · rw [hc]; simp only [entryOf, hg]
+        exact ⟨by first | rfl | trivial, fg.2.1.symm, fg.2.2.1.symm, hpre⟩
+    · exact Or.inr (Or.inr (Or.inl hc))
+    · exact Or.inr (Or.inr (Or.inr hc))
+  | none =>
+    cases ht : rd.todo with
+    | cons i t =>
+      simp only [tickOps]
+      rcases hacc with h1 | ⟨_, fns', hp', _⟩ | ⟨hc, hi⟩ | hc
+      · exact Or.inl h1
+      · rw [hp] at hp'; simp at hp'
+      · rw [ht] at hi
+        rcases List.mem_cons.mp hi with rfl | hi
+        · refine Or.inr (Or.inl ⟨hc, fnsOf s rd.cur id, rfl, ?_⟩)
+          rw [hc]; simp only [fnsOf, hg]; exact fg.2.2.2
+        · exact Or.inr (Or.inr (Or.inl ⟨hc, hi⟩))
+      · exact Or.inr (Or.inr (Or.inr hc))
+    | nil =>
+      cases he : rd.ents with
+      | cons k' es =>
+        simp only [tickEnt]
+        rcases hacc with h1 | ⟨_, fns', hp', _⟩ | ⟨_, hi⟩ | hc
+        · exact Or.inl h1
+        · rw [hp] at hp'; simp at hp'
+        · rw [ht] at hi; simp at hi
+        · rw [he] at hc
+          rcases List.mem_cons.mp hc with rfl | hc
+          · refine Or.inr (Or.inr (Or.inl ⟨rfl, ?_⟩))
+            obtain ⟨hid, hmem⟩ := find_id _ _ _ hg
+            exact List.mem_map.mpr ⟨g, hmem, hid⟩
+          · exact Or.inr (Or.inr (Or.inr hc))
+      | nil => exact hacc
+
+theorem sandwich_fold (s0 : St) (evs : List Ev) (he : ∀ e ∈ evs, noRenewEv e) (x : St × Rd × List Obs)
+    (u : UpInv x.1 x.2.1) (l : LowInv s0 x.1 x.2.1) :
+    UpInv (evs.foldl evStep x).1 (evs.foldl evStep x).2.1 ∧ LowInv s0 (evs.foldl evStep x).1 (evs.foldl evStep x).2.1 := by
+  induction evs generalizing x with
+  | nil => exact ⟨u, l⟩
+  | cons e es ih =>
+    rw [List.foldl_cons]
+    apply ih (fun e' h' => he e' (List.mem_cons_of_mem _ h'))
+    · cases e with
+      | tick => exact upInv_tick _ _ u
+      | app o =>
+        exact upInv_mono _ _ (sle_step x.1 o (by intro k et hc; subst hc; exact he _ List.mem_cons_self)) _ u
+    · cases e with
+      | tick => exact lowInv_tick _ _ _ l
+      | app o =>
+        exact ⟨l.sle.trans (sle_step x.1 o (by intro k et hc; subst hc; exact he _ List.mem_cons_self)), l.acc⟩
+
+/-- ANY schedule (any number of overlapping calls; a fresh object for a slot excepted): every feature entry of the
+    reply is a feature the tree has at the end, with that type and role and with every function of the entry; and
+    every feature the tree had at the start, in an entity of the start's list, has an entry with that type and role
+    and at least the functions it had then. -/
+theorem sandwich (s : St) (h : Inv s) (p : Nat) (evs : List Ev) (he : ∀ e ∈ evs, noRenewEv e)
+    (hd : (runRead s p evs).2.1.done = true) :
+    (∀ k e, (k, e) ∈ (runRead s p evs).2.1.outF →
+      ∃ g ∈ ((runRead s p evs).1.pool k).feats, g.id = e.id ∧ g.typ = e.typ ∧ g.role = e.role ∧ e.fns <+: g.fns) ∧
+    (∀ k ∈ s.attached, ∀ f0 ∈ (s.pool k).feats,
+      ∃ e, (k, e) ∈ (runRead s p evs).2.1.outF ∧ e.id = f0.id ∧ e.typ = f0.typ ∧ e.role = f0.role ∧ f0.fns <+: e.fns) := by
+  have u0 : UpInv s (rbegin s p) := ⟨by intro k e hm; simp [rbegin] at hm, by intro id fns hp; simp [rbegin] at hp,
+    by intro id hi; simp [rbegin] at hi⟩
+  have l0 : LowInv s s (rbegin s p) := ⟨SLe.refl s, fun k hk _ _ _ => Or.inr (Or.inr (Or.inr hk))⟩
+  obtain ⟨u, l⟩ := sandwich_fold s evs he (s, rbegin s p, []) u0 l0
+  refine ⟨?_, ?_⟩
+  · intro k e hm
+    obtain ⟨g, hg, a, b, c⟩ := u.out k e hm
+    obtain ⟨hid, hmem⟩ := find_id _ _ _ hg
+    exact ⟨g, hmem, hid, a.symm, b.symm, c⟩
+  · intro k hk f0 hf0
+    have h0 := find_of_nodup _ (h.1 k).1.1 f0 hf0
+    simp only [Rd.done, Bool.and_eq_true, Option.isNone_iff_eq_none, List.isEmpty_iff] at hd
+    obtain ⟨⟨hp, ht⟩, hen⟩ := hd
+    rcases l.acc k hk f0.id f0 h0 with h1 | ⟨_, fns, hp', _⟩ | ⟨_, hi⟩ | hc
+    · exact h1
+    · simp only [runRead] at hp; rw [hp] at hp'; simp at hp'
+    · simp only [runRead] at ht; rw [ht] at hi; simp at hi
+    · simp only [runRead] at hen; rw [hen] at hc; simp at hc
+
 end Spine.LTree
